@@ -82,6 +82,40 @@ def returned_names(fn):
   return names if len(set(names)) == len(names) else None
 
 
+def module_constants(tree):
+  return sorted({t.id for st in tree.body if isinstance(st, ast.Assign)
+                 for t in st.targets if isinstance(t, ast.Name)})
+
+
+def inline_new_constants(tree, known):
+  """a module-level NAME = <literal> that the reference module does not have
+  (a magic number or an id list that was moved to module level) is put back
+  where it is used"""
+  new = {}
+  for st in list(tree.body):
+    if isinstance(st, ast.Assign) and len(st.targets) == 1 and isinstance(
+        st.targets[0], ast.Name) and st.targets[0].id not in known:
+      try:
+        ast.literal_eval(st.value)
+      except (ValueError, SyntaxError, TypeError):
+        continue
+      new[st.targets[0].id] = st
+  if not new:
+    return tree
+  stores = {}
+  for n in ast.walk(tree):
+    if isinstance(n, ast.Name) and isinstance(n.ctx, (ast.Store, ast.Del)):
+      stores[n.id] = stores.get(n.id, 0) + 1
+  new = {k: v for k, v in new.items() if stores.get(k) == 1}
+  sub = _Subst({k: v.value for k, v in new.items()}, {})
+  for st in tree.body:
+    if isinstance(st, (ast.FunctionDef, ast.ClassDef)):
+      sub.visit(st)
+  for v in new.values():
+    tree.body.remove(v)
+  return tree
+
+
 def make_inventory(trees):
   """{module: {qualname: {'locals': sorted local names, 'returns': names
   returned by every return statement or None}}}"""
@@ -90,6 +124,7 @@ def make_inventory(trees):
     inv[mod] = {q: {'locals': sorted(local_names(f)),
                     'returns': returned_names(f)}
                 for q, (f, _, _) in function_table(tree).items()}
+    inv[mod]['__constants__'] = module_constants(tree)
   return inv
 
 
@@ -1079,6 +1114,8 @@ def normalise_module(modname, tree):
   inv = inventory().get(modname)
   if inv is None:
     return tree
+  if '__constants__' in inv:
+    tree = inline_new_constants(tree, set(inv['__constants__']))
   tree = _Inliner(tree, set(inv)).run()
   for q, (fn, owner, cls) in function_table(tree).items():
     if q in inv:
